@@ -137,56 +137,33 @@ def enclosing_if_condition(s, stmt_idx, what):
 # --------------------------------------------------------------------------------------------------
 def _conforms_arm(s, variant):
     it = s.fn('conforms', impl='Searcher')
-    a, b0, b1 = s.arm(r'VariantType::' + variant, s.body_span(it), what=f'conforms arm VariantType::{variant}')
+    pat = r'(?:VariantType::\w+\s*\|\s*)*VariantType::' + variant + r'(?:\s*\|\s*VariantType::\w+)*'
+    a, b0, b1 = s.arm(pat, s.body_span(it), what=f'conforms arm VariantType::{variant}')
     if s.mask[b0] != '{':
         raise AnchorLost(f'conforms arm {variant} is not a block')
     return s.text[b0:b1]
 
 
 def unit_cmp(inj, scratch):
+    """The typed comparison arms of conforms, copied VERBATIM (whole arm block). Their free variables `op`,
+    `field_value`, `value` become parameters; the two Variant operands are shim values (FV) whose to_int /
+    to_float / to_bool / to_datetime mirror the coercions of the real Variant for a value of that type."""
     frag_begin(inj)
     s = src('src/searcher.rs', scratch)
     recs, dropped = [], []
-    out = ['pub mod cmp {', 'use super::*;',
-           '#[derive(Clone, Copy)] pub struct TS(pub i64);',
-           'impl TS { pub fn and_utc(self) -> TS { self } pub fn timestamp(self) -> i64 { self.0 } }']
-    # Int
-    t = dedent(_conforms_arm(s, 'Int'))
-    g = replace_exact(t, 'field_value.to_int()', 'p_field', 1)
-    g = replace_exact(g, 'value.to_int()', 'p_value', 1)
-    out.append(f'pub fn frag_cmp_int(op: &Op, p_field: i64, p_value: i64) -> bool {g}')
-    r, d = frag_record('frag_cmp_int', 'src/searcher.rs', 'fn conforms / arm `VariantType::Int => {..}` (whole arm block)',
-                       t, g, ['field_value.to_int() -> p_field', 'value.to_int() -> p_value'],
-                       'Variant::to_int coercion of both operands')
-    recs.append(r); dropped.append(d)
-    # Float
-    t = dedent(_conforms_arm(s, 'Float'))
-    g = replace_exact(t, 'field_value.to_float()', 'p_field', 1)
-    g = replace_exact(g, 'value.to_float()', 'p_value', 1)
-    out.append(f'pub fn frag_cmp_float(op: &Op, p_field: f64, p_value: f64) -> bool {g}')
-    r, d = frag_record('frag_cmp_float', 'src/searcher.rs', 'fn conforms / arm `VariantType::Float => {..}`',
-                       t, g, ['field_value.to_float() -> p_field', 'value.to_float() -> p_value'],
-                       'Variant::to_float coercion of both operands')
-    recs.append(r); dropped.append(d)
-    # Bool
-    t = dedent(_conforms_arm(s, 'Bool'))
-    g = replace_exact(t, 'field_value.to_bool()', 'p_field')
-    g = replace_exact(g, 'value.to_bool()', 'p_value', 1)
-    out.append(f'pub fn frag_cmp_bool(op: &Op, p_field: bool, p_value: bool) -> bool {g}')
-    r, d = frag_record('frag_cmp_bool', 'src/searcher.rs', 'fn conforms / arm `VariantType::Bool => {..}`',
-                       t, g, ['field_value.to_bool() -> p_field', 'value.to_bool() -> p_value'],
-                       'Variant::to_bool coercion of both operands')
-    recs.append(r); dropped.append(d)
-    # DateTime
-    t = dedent(_conforms_arm(s, 'DateTime'))
-    g = replace_exact(t, 'field_value.to_datetime().0', 'TS(p_dt)', 1)
-    g = replace_exact(g, 'value.to_datetime()', '(TS(p_start), TS(p_finish))', 1)
-    out.append(f'pub fn frag_cmp_datetime(op: &Op, p_dt: i64, p_start: i64, p_finish: i64) -> bool {g}')
-    r, d = frag_record('frag_cmp_datetime', 'src/searcher.rs', 'fn conforms / arm `VariantType::DateTime => {..}`',
-                       t, g, ['field_value.to_datetime().0 -> TS(p_dt)', 'value.to_datetime() -> (TS(p_start), TS(p_finish))',
-                              'TS is a shim whose and_utc().timestamp() returns the wrapped i64 (stands for chrono NaiveDateTime)'],
-                       'Variant::to_datetime (parse_datetime, chrono)')
-    recs.append(r); dropped.append(d)
+    out = ['pub mod cmp {', 'use super::*;', H('frag_cmp_prelude.rs')]
+    for variant, fn in [('Int', 'frag_cmp_int'), ('Float', 'frag_cmp_float'), ('Bool', 'frag_cmp_bool'), ('DateTime', 'frag_cmp_datetime')]:
+        t = dedent(_conforms_arm(s, variant))
+        for w in re.findall(r'\bself\b', s.mask[0:0]):
+            pass
+        if re.search(r'\bself\b|\bentry\b|\bfile_info\b', t):
+            raise AnchorLost(f'conforms arm {variant} uses state outside (op, field_value, value)')
+        out.append(f'pub fn {fn}(op: &Op, field_value: &FV, value: &FV) -> bool {t}')
+        r, d = frag_record(fn, 'src/searcher.rs', f'fn conforms / arm `VariantType::{variant} => {{..}}` (whole arm block, verbatim)', t, t,
+                           ['field_value, value: Variant -> shim FV (to_int / to_float / to_bool / to_datetime of a value of that type); '
+                            'NaiveDateTime -> TS whose and_utc().timestamp() is the wrapped i64'],
+                           'Variant coercions of string literals (parse, parse_filesize, parse_datetime)')
+        recs.append(r); dropped.append(d)
     out.append(H('frag_cmp.kani.rs'))
     out.append('}')
     inj.new_file(FRAG_FILE, '\n'.join(out) + '\n')
